@@ -100,8 +100,8 @@ fn main() {
                 let d = if alg == "kmeans2" { 2 } else { 3 };
                 let (pf, pts) = gen::points(&mut r, n, d);
                 fam = format!("{pf}/{wfam}");
-                let max_iter = *r.pick(&[1usize, 2, 5, 20]);
-                let max_balance_iter = *r.pick(&[1usize, 2, 5]);
+                let max_iter = *r.pick(&[0usize, 1, 2, 5, 20]);
+                let max_balance_iter = *r.pick(&[0usize, 1, 2, 5]);
                 let imbalance_tol = *r.pick(&[0.01, 5.0, 50.0]);
                 let delta = *r.pick(&[0.0, 0.01, 1.0]);
                 params = format!("\"max_iter\":{max_iter},\"max_balance_iter\":{max_balance_iter},\"imbalance_tol\":{imbalance_tol},\"delta_threshold\":{delta}");
